@@ -694,6 +694,21 @@ class Tr:
             return self.for_loop(s, env, rest, rest_k)
         if isinstance(s, ast.While):
             return self.while_loop(s, env, rest, rest_k)
+        # the idiom `if x is None: x = e` on an optional name: x becomes the value it holds, or e
+        if isinstance(s, ast.If) and not s.orelse and len(s.body) == 1 and isinstance(s.test, ast.Compare) and len(s.test.ops) == 1 \
+                and isinstance(s.test.ops[0], ast.Is) and isinstance(s.test.left, ast.Name) and ast.unparse(s.test.comparators[0]) == "None" \
+                and isinstance(s.body[0], ast.Assign) and len(s.body[0].targets) == 1 and isinstance(s.body[0].targets[0], ast.Name) \
+                and s.body[0].targets[0].id == s.test.left.id and s.test.left.id in env and env[s.test.left.id][1].startswith("opt:"):
+            name = s.test.left.id
+            cur, cty = env[name]
+            bv, tv, tyv = self.expr(s.body[0].value, env)
+            if tyv != cty[4:]:
+                raise Abort("`if %s is None: %s = ...` assigns a %s to an optional %s" % (name, name, tyv, cty[4:]))
+            env[name] = (name + "_v", tyv)
+            if not bv:
+                return "let %s_v := match %s with Some v_ => v_ | None => %s end in %s" % (name, cur, tv, nxt(env))
+            return "do %s <- match %s with Some v_ => Ok %s | None => (%sOk %s) end; %s" % (
+                self.pack(name + "_v"), cur, self.pack("v_"), self.binds(bv), self.pack(tv), nxt(env))
         if isinstance(s, ast.If):
             b, t = self.cond(s.test, env)
             if self.always_returns(s.body) and not s.orelse:
